@@ -18,7 +18,11 @@
  *   cl=<n> cr=<n>          control/concurrencylocal, concurrencyremote
  *   sl=<n> sr=<n>          the byte each spawner announces
  *   life=<n>               control/queuelifetime
- *   end=<s>                at T0+s the daemon gets TERM and every report still owed is released
+ *   end=<s>                at T0+s the (last) daemon gets TERM and every report still owed is released
+ *   term=<s>,<s>           clean stops: the 1st, 2nd.. incarnation gets TERM at T0+s (at its first select if that time has passed);
+ *                          deliveries in flight go on and report when their duration is over (the daemon waits for them:
+ *                          del_canexit); when it has exited 0 a new daemon is started on the same queue
+ *   down=<s>               the clock advances by s between a clean exit and the restart
  *   out=<letters>          outcome of the k-th delivery attempt (in order of start, cyclic): K, Z or D
  *   dur=<s>,<s>,...        virtual duration of the k-th delivery attempt (cyclic)
  *   bf=<digits>            per bounce injection: 1 = qmail-queue fails (messdone puts the message back into pqdone)
@@ -32,9 +36,12 @@
  * output: one line per scenario:  W <scenario> <records separated by ';'>
  *   s:<recent>:<exit>:<c0>:<c1>:<freejobs>:<pqfail>:<pqdone>:<tododir>:<nexttodorun>:<flagcleanup>:<cleanuptime>:<timeout>:<tafter>:<nready>[*<count>]
  *        c<k> = <spawnalive>,<commpending>,<used>,<concurrency>,<passopen>,<pqmin|->  ("-" = empty heap); times absolute
- *   c:<t>:<chan>:<id>:<delnum>:<attempt>   delivery command seen      r:<t>:<chan>:<id>:<letter>   report released
+ *   c:<t>:<chan>:<id>:<delnum>:<attempt>:<retry>:<dying>:<recip>   delivery command seen; retry / dying = jo[j].retry / flagdying of its job
+ *   r:<t>:<chan>:<id>:<letter>:<attempt>   report released
  *   n:<t>:<id>   message arrived          b:<t>:<ok|fail>   bounce injection     g:<t>:<sig>   signal     f:<callno>   injected stat fault
- *   x:<exitcode>:<crashed>:<clock>         end of the daemon;  x:abort = select budget exhausted (the daemon spins or never stops)
+ *   i:<t>:<n>    the n-th daemon process starts on the queue (n >= 2: restart)
+ *   x:<exitcode>:<crashed>:<clock>:<pass0>:<pass1>   end of a daemon; pass<c> = pass[c].id when it exited (a pass cut short by TERM)
+ *   x:abort = select budget exhausted (the daemon spins or never stops)
  */
 #define _GNU_SOURCE
 #include "sim.h"
@@ -54,6 +61,8 @@ SIM_INSTANCE(qc)
 /* mirrors of the file-local struct types of qmail-send.c (only `id` / `refs` and the array strides are used) */
 struct l_pass { unsigned long id; int j; int fd; seek_pos mpos; substdio ss; char buf[128]; };
 struct l_job { int refs; unsigned long id; int channel; datetime_sec retry; stralloc sender; int numtodo; int flaghiteof; int flagdying; };
+struct l_del { int used; int j; unsigned long delid; seek_pos mpos; stralloc recip; };
+extern struct l_del *d[2];
 extern int flagexitasap, flagspawnalive[2], flagcleanup, numjobs;
 extern datetime_sec recent, nexttodorun, cleanuptime;
 extern struct l_pass pass[2];
@@ -75,6 +84,7 @@ typedef struct {
   char bf[24];
   int nsig; struct { long at; int done; } sig[4];
   int sf;
+  int nterm; long term[4]; long down;
   char text[1400];
 } lscen;
 static lscen S;
@@ -100,6 +110,7 @@ static void rec(int mergeable, const char *fmt, ...) {
 typedef struct { int chan, delnum, attempt, sent; char outcome; long start, rep; unsigned long id; char recip[80]; } lpend;
 #define MAXPEND 2048
 static lpend pend[MAXPEND]; static int npend, nattempt, nselect, nbounce, flushing, prerun, term_sent;
+static long term_time; static int term_final;      /* when this incarnation gets TERM; final: release every report then */
 static size_t cmdpos[2];
 static int sinkid[2], srcid[2];
 
@@ -117,9 +128,11 @@ static void parse_commands(void) {
       e->chan = c; e->delnum = b->p[p]; e->attempt = nattempt++; e->sent = 0;
       e->outcome = S.out[0] ? S.out[e->attempt % strlen(S.out)] : 'K';
       e->start = W.clock; e->rep = W.clock + (flushing || !S.ndur ? 0 : S.dur[e->attempt % S.ndur]);
-      e->id = strtoul((char *)b->p + p + 1, 0, 10);
+      { const char *mi = (char *)b->p + p + 1, *sl = strrchr(mi, '/'); e->id = strtoul(sl ? sl + 1 : mi, 0, 10); }   /* "<split>/<id>" */
       snprintf(e->recip, sizeof e->recip, "%s", (char *)b->p + f[1] + 1);
-      rec(0, "c:%ld:%d:%lu:%d:%d", W.clock, c, e->id, e->delnum, e->attempt);
+      { long retry = 0; int dying = 0;
+        if (d[c] && e->delnum >= 0 && (unsigned)e->delnum < concurrency[c] && d[c][e->delnum].used && jo) { struct l_job *jb = &jo[d[c][e->delnum].j]; retry = (long)jb->retry; dying = jb->flagdying ? 1 : 0; }
+        rec(0, "c:%ld:%d:%lu:%d:%d:%ld:%d:%s", W.clock, c, e->id, e->delnum, e->attempt, retry, dying, e->recip); }
       cmdpos[c] = f[2] + 1;
     }
   }
@@ -130,7 +143,7 @@ static void send_report(lpend *e) {
   r[n++] = e->delnum;
   n += sprintf((char *)r + n, "%c%s %s\n", L, L == 'K' ? "delivered to" : L == 'D' ? "no mailbox" : "deferred for", e->recip) + 1;
   hbuf_add(&W.src[srcid[e->chan]].data, r, n);
-  rec(0, "r:%ld:%d:%lu:%c", W.clock, e->chan, e->id, L);
+  rec(0, "r:%ld:%d:%lu:%c:%d", W.clock, e->chan, e->id, L, e->attempt);
   e->sent = 1;
 }
 
@@ -175,8 +188,8 @@ static void preload(lmsg *m, int idx) {                /* a message the daemon h
 static void fmt_min(char *o, size_t n, prioq *q) { if (q->p && q->len) snprintf(o, n, "%ld", (long)q->p[0].dt); else snprintf(o, n, "-"); }
 
 static void fire(simproc *p) {                         /* external events whose time has come */
-  if (!term_sent && W.clock >= T0 + S.end) {
-    term_sent = 1; flushing = 1;
+  if (!term_sent && W.clock >= term_time) {
+    term_sent = 1; if (term_final) flushing = 1;
     rec(0, "g:%ld:T", W.clock);
     sim_deliver_signal(p, SIGTERM);
   }
@@ -186,7 +199,7 @@ static void fire(simproc *p) {                         /* external events whose 
 }
 static long next_event(void) {                         /* earliest external event strictly after the clock */
   long t = LONG_MAX;
-  if (!term_sent && T0 + S.end < t) t = T0 + S.end;
+  if (!term_sent && term_time < t) t = term_time;
   for (int i = 0; i < S.nsig; i++) if (!S.sig[i].done && T0 + S.sig[i].at < t) t = T0 + S.sig[i].at;
   for (int i = 0; i < S.nmsg; i++) if (S.msg[i].kind == 'a' && !S.msg[i].created && T0 + S.msg[i].at < t) t = T0 + S.msg[i].at;
   for (int i = 0; i < npend; i++) if (!pend[i].sent && pend[i].rep < t) t = pend[i].rep;
@@ -283,7 +296,7 @@ static void world_init(void) {
 
 static void run_daemon(void) {
   sim_globals_restore();
-  npend = 0; nselect = 0; nattempt = 0; nbounce = 0; cmdpos[0] = cmdpos[1] = 0; flushing = 0; term_sent = 0;
+  npend = 0; nselect = 0; cmdpos[0] = cmdpos[1] = 0; flushing = 0; term_sent = 0;
   W.nsrc = 0; W.nsink = 0; W.npipe = 0;
   simproc *p0 = sim_proc(0, "qmail-send", 501, 7796, "/");
   simproc *p1 = sim_proc(1, "qmail-clean", 601, 7794, "/");
@@ -307,7 +320,7 @@ static void run_scenario(void) {
   int faultcall = 0;
   if (S.sf > 0) {                       /* pre-run up to the first select: which calls of the start-up scan are stat()s? */
     world_init();
-    prerun = 1; sim_trace_on = 1; sim_trace.n = 0;
+    prerun = 1; sim_trace_on = 1; sim_trace.n = 0; term_time = LONG_MAX; term_final = 1;
     run_daemon();
     prerun = 0; sim_trace_on = 0;
     int calls[256], nc = 0;
@@ -324,10 +337,21 @@ static void run_scenario(void) {
   }
   world_init();
   sim_trace_on = 0;
+  nattempt = 0; nbounce = 0;
   if (faultcall) { sim_faults[0].proc = 0; sim_faults[0].callno = faultcall; sim_faults[0].err = EIO; sim_nfaults = 1; rec(0, "f:%d", faultcall); }
-  run_daemon();
-  flush_rec();
-  rec(0, "x:%d:%d:%ld", P[0].exitcode, P[0].crashed, W.clock);
+  for (int inc = 0; inc <= S.nterm; inc++) {
+    term_final = inc == S.nterm;
+    term_time = term_final ? T0 + S.end : T0 + S.term[inc];
+    if (term_final && term_time < W.clock + 1) term_time = W.clock + 1;
+    rec(0, "i:%ld:%d", W.clock, inc + 1);
+    run_daemon();
+    sim_nfaults = 0;
+    parse_commands();
+    flush_rec();
+    rec(0, "x:%d:%d:%ld:%lu:%lu", P[0].exitcode, P[0].crashed, W.clock, pass[0].id, pass[1].id);
+    if (P[0].exitcode != 0 || P[0].crashed) break;
+    W.clock += S.down;
+  }
   flush_rec();
   fprintf(h_out, "W %s ", S.text);
   if (ev.n) fwrite(ev.p, 1, ev.n, h_out); else fputc('-', h_out);
@@ -347,6 +371,8 @@ static int parse_scenario(const char *text) {
     else if (!strcmp(t, "out")) snprintf(S.out, sizeof S.out, "%s", v);
     else if (!strcmp(t, "bf")) snprintf(S.bf, sizeof S.bf, "%s", v);
     else if (!strcmp(t, "sf")) S.sf = atoi(v);
+    else if (!strcmp(t, "down")) { S.down = atol(v); if (S.down < 0) S.down = 0; if (S.down > 100000) S.down = 100000; }
+    else if (!strcmp(t, "term")) { char *s2 = 0; for (char *u = strtok_r(v, ",", &s2); u && S.nterm < 4; u = strtok_r(0, ",", &s2)) { long x = atol(u); S.term[S.nterm++] = x < 0 ? 0 : x; } }
     else if (!strcmp(t, "dur")) { char *s2 = 0; for (char *u = strtok_r(v, ",", &s2); u && S.ndur < 48; u = strtok_r(0, ",", &s2)) { long x = atol(u); S.dur[S.ndur++] = x < 0 ? 0 : x; } }
     else if (!strcmp(t, "sig")) { char *s2 = 0; for (char *u = strtok_r(v, ",", &s2); u && S.nsig < 4; u = strtok_r(0, ",", &s2)) S.sig[S.nsig++].at = atol(u); }
     else if (!strcmp(t, "m")) {
@@ -375,7 +401,7 @@ static int parse_scenario(const char *text) {
  * slots that is due at (or arrives near) the start, and long delivery durations, so that X sits mid-pass with all slots taken.
  * Around it, independently drawn: entries on the other channel and on X's own heap that become due at spread-out times, messages
  * that finish while a bounce injection fails (pqdone retry), a failing stat in the start-up scan (pqfail retry), later arrivals,
- * ALRM, short lifetimes.  About a fifth of the scenarios have no busy channel (control: idle daemon, ordinary retries). */
+ * ALRM, short lifetimes, and (2/5) one or two clean stops (TERM at an arbitrary virtual time, restart on the same queue).  About a fifth of the scenarios have no busy channel (control: idle daemon, ordinary retries). */
 static long pick_due(void) {
   switch (h_below(6)) { case 0: return -(long)h_below(50); case 1: return (long)h_below(130);
     case 2: return 100 + (long)h_below(400); case 3: return 380 + (long)h_below(60); default: return (long)h_below(2600); }
@@ -424,6 +450,13 @@ static void gen_scenario(char *o, size_t osz) {
   if (h_below(3) == 0) n += snprintf(o + n, osz - n, "/bf=%s", (const char *[]){ "1", "10", "110", "01", "1110" }[h_below(5)]);
   if (h_below(5) == 0) n += snprintf(o + n, osz - n, "/sf=%d", 1 + (int)h_below(16));
   if (h_below(8) == 0) n += snprintf(o + n, osz - n, "/sig=%ldA", (long)h_below(2000));
+  /* clean stops at arbitrary virtual times (often early, while the heavy pass is open), restart on the same queue */
+  if (h_below(5) < 2) {
+    long t1 = h_below(3) ? (long)h_below(400) : (long)h_below(2200);
+    n += snprintf(o + n, osz - n, "/term=%ld", t1);
+    if (h_below(3) == 0) n += snprintf(o + n, osz - n, ",%ld", t1 + 1 + (long)(h_below(2) ? h_below(300) : h_below(1500)));
+    if (h_below(3) == 0) n += snprintf(o + n, osz - n, "/down=%ld", (long[]){ 1, 5, 300, 3000 }[h_below(4)]);
+  }
 }
 
 int main(int argc, char **argv) {
